@@ -34,6 +34,14 @@ var specFieldOrder = []struct {
 	{"MsgPackage", []string{"Status", "MsgId"}, "TDS_MSG: Length Status MsgId"},
 	{"DynamicPackage", []string{"Type", "Status", "ID", "Stmt"}, "TDS_DYNAMIC/DYNAMIC2: Length Type Status IdLen Id [StmtLen Stmt]"},
 	{"CurDeclarePackage", []string{"Name", "Options", "Status", "Stmt"}, "TDS_CURDECLARE/2/3: Length NameLen Name Options Status StmtLen Stmt NumColumns {ColLen Col}*"},
+	{"CurClosePackage", []string{"CursorID", "Name", "Options"}, "TDS_CURCLOSE: Length CursorId [NameLen Name] Options"},
+	{"CurDeletePackage", []string{"CursorID", "Name", "Status", "TableName"}, "TDS_CURDELETE: Length CursorId [NameLen Name] Status TableNameLen TableName"},
+	{"CurFetchPackage", []string{"CursorID", "Name", "Type", "RowNumber"}, "TDS_CURFETCH: Length CursorId [NameLen Name] Type [RowNum]"},
+	{"CurOpenPackage", []string{"CursorID", "Name", "Status"}, "TDS_CUROPEN: Length CursorId [NameLen Name] Status"},
+	{"CurUpdatePackage", []string{"CursorID", "Name", "Status", "TableName", "Stmt"}, "TDS_CURUPDATE: Length CursorId [NameLen Name] Status TableNameLen TableName [StmtLen Stmt]"},
+	{"LanguagePackage", []string{"Status", "Cmd"}, "TDS_LANGUAGE: Length Status Text"},
+	{"OptionCmdPackage", []string{"Cmd", "Option", "OptionArg"}, "TDS_OPTIONCMD: Length Command Option ArgLength OptionArg"},
+	{"EnvChangePackageField", []string{"Type", "NewValue", "OldValue"}, "TDS_ENVCHANGE member: Type NewValLen NewValue OldValLen OldValue"},
 }
 
 func c06FieldOrder(r *core.Run, ef *errFlow, pkgs []pkgCodec) {
@@ -44,6 +52,14 @@ func c06FieldOrder(r *core.Run, ef *errFlow, pkgs []pkgCodec) {
 		for i := range pkgs {
 			if pkgs[i].name == so.typ {
 				pc = &pkgs[i]
+			}
+		}
+		if pc == nil {
+			// a codec that is not a Package (a member codec): resolve it by name
+			if obj := p.TryObj("tds", so.typ); obj != nil {
+				if named, ok := obj.Type().(*types.Named); ok {
+					pc = &pkgCodec{name: so.typ, named: named, read: methodFn(p, named, "ReadFrom"), write: methodFn(p, named, "WriteTo")}
+				}
 			}
 		}
 		if pc == nil {
